@@ -296,7 +296,7 @@ def run_uploads(ctx):
         ctx.sample({"upload": metas[0], "impl": impl[0][:200]})
 
 
-def run_noservers(ctx):
+def run_noservers(ctx, corpus=False):
     """literal-sized uploads need no servers: on a client with zero (connected) servers every file of <= 55 bytes still
     gets its LIT cap (data embedded, no server call), from every kind of uploadable, with and without a convergence
     secret; a file of > 55 bytes on the same client fails with a no-servers / unhappiness error"""
@@ -306,14 +306,15 @@ def run_noservers(ctx):
     from allmydata.immutable import upload
     from allmydata.interfaces import NoServersError, UploadUnhappinessError
     from allmydata import uri
-    rng = ctx.rng
+    rng = random.Random("c05-corpus-noservers") if corpus else ctx.rng
     Chunky = make_chunky(upload)
     lines, impl, metas = [], [], []
-    for gi in range(ctx.budget(4, 30)):
+    modes = ["never-had-servers", "all-removed", "broker-cleared"]
+    for gi in range(3 if corpus else ctx.budget(4, 30)):
         k = rng.choice([1, 2, 3])
         n = rng.randrange(k, k + 4)
         max_seg = rng.choice([16, 128, 131072])
-        mode = rng.choice(["never-had-servers", "all-removed", "broker-cleared"])
+        mode = modes[gi] if corpus else rng.choice(modes)
         seed = rng.randrange(1 << 30)
         with grid.Runtime(seed=seed, policy="random") as rt:
             nsrv = 0 if mode == "never-had-servers" else rng.randrange(1, n + 2)
@@ -327,6 +328,8 @@ def run_noservers(ctx):
                 elif mode == "broker-cleared":
                     del g.broker.servers[:]
                 sizes = [0, 1, 7, 54, 55, rng.randrange(0, 56), rng.randrange(0, 56), 56, 57, rng.randrange(56, 400)]
+                if corpus:
+                    sizes = [0, 1, 7, 54, 55, 56, 57]
                 for size in sizes:
                     dseed = rng.randrange(1 << 30)
                     data = bytes(random.Random(dseed).randrange(256) for _ in range(size))
@@ -467,7 +470,7 @@ def file_sources(data, rng, workdir, tag):
     ]
 
 
-def run_sources(ctx):
+def run_sources(ctx, corpus=False):
     """every way of supplying the same bytes (Data; FileHandle over BytesIO, a file opened 'rb', a just-written unflushed
     'w+b' file / TemporaryFile in one or several pieces, positioned mid-file or at the end, a wrapper without fileno;
     FileName) with the same secret and parameters gives the same cap, and the cap downloads to exactly the bytes"""
@@ -477,10 +480,10 @@ def run_sources(ctx):
     from allmydata.immutable import upload
     from allmydata import uri
     from allmydata.util.consumer import MemoryConsumer
-    rng = ctx.rng
+    rng = random.Random("c05-corpus-sources") if corpus else ctx.rng
     thorough = ctx.tier == "thorough"
     base_sizes = [0, 1, 54, 55, 56, 57, 1000, 8191, 8192, 8193, 20000, 70000, 200000]
-    for gi in range(ctx.budget(3, 12)):
+    for gi in range(1 if corpus else ctx.budget(3, 12)):
         k = rng.choice([1, 2, 3])
         n = rng.randrange(k, k + 3)
         max_seg = rng.choice([131072, 131072, 1048576, 65536])
@@ -490,6 +493,8 @@ def run_sources(ctx):
             try:
                 c = g.clients[0]
                 sizes = list(base_sizes) + [rng.randrange(0, 56), rng.randrange(56, 9000), rng.randrange(9000, 100000)]
+                if corpus:
+                    sizes = [0, 30, 55, 56, 100, 1000, 8193, 200000]
                 for size in sizes:
                     dseed = rng.randrange(1 << 30)
                     drng = random.Random(dseed)
@@ -568,14 +573,16 @@ def split_by(d, sizes):
     return out
 
 
-def run_via(ctx):
+def run_via(ctx, corpus=False):
     """Uploader.upload on an IUploadable whose read() returns piece lists, with varied EncryptAnUploadable.CHUNKSIZE:
     the (position, length) of every read() call on the CHK path and the resulting cap vs the model's uploadCapVia"""
     import grid
     from twisted.internet import defer
     from allmydata.immutable import upload
     from allmydata import uri
-    rng = ctx.rng
+    rng = random.Random("c05-corpus-via") if corpus else ctx.rng
+    fixed = [(60, 51200, [5, 3], b""), (200, 51200, [7, 1, 33], b"s" * 16), (200, 64, [16], b""), (300, 7, [5, 3], b"s" * 16),
+             (57, 51200, [1], b""), (30, 51200, [5, 3], b""), (1000, 100, [4096, 17], None)]
 
     class PieceSource(upload.FileHandle):
         def __init__(self, fh, convergence, spec):
@@ -590,16 +597,18 @@ def run_via(ctx):
     lines, impl, metas = [], [], []
     saved = upload.EncryptAnUploadable.CHUNKSIZE
     try:
-        for gi in range(ctx.budget(3, 20)):
+        for gi in range(2 if corpus else ctx.budget(3, 20)):
             k = rng.choice([1, 2, 3])
             n = rng.randrange(k, k + 3)
             max_seg = rng.choice([16, 100, 4096, 131072])
+            if corpus:
+                k, n, max_seg = [(2, 3, 100), (3, 5, 131072)][gi]
             seed = rng.randrange(1 << 30)
             with grid.Runtime(seed=seed, policy="random") as rt:
                 g = grid.Grid(grid.fresh_dir("c05v"), rt, num_servers=n, num_clients=1, k=k, happy=1, n=n, max_segment_size=max_seg)
                 try:
                     c = g.clients[0]
-                    for _ in range(ctx.budget(12, 30)):
+                    for ci in range(len(fixed) if corpus else ctx.budget(12, 30)):
                         size = rng.choice([0, 1, 55, 56, 57, max_seg, max_seg + 1, 2 * max_seg - 1, rng.randrange(0, 56),
                                            rng.randrange(56, 3000), rng.randrange(56, 160000)])
                         seg_eff = -(-min(max_seg, max(size, 1)) // k) * k
@@ -610,6 +619,8 @@ def run_via(ctx):
                             chunk *= 8
                         spec = rng.choice([[], [1], [5, 3], [7, 1, 33], [16], [4096, 17], [51200, 1], [0, 5]])
                         conv = rng.choice([None, b"", bytes(rng.randrange(256) for _ in range(16))])
+                        if corpus:
+                            size, chunk, spec, conv = fixed[ci]
                         data = bytes(rng.randrange(256) for _ in range(min(size, 3001)))
                         data = (data * (size // max(1, len(data)) + 1))[:size]
                         case = {"kind": "via", "size": size, "k": k, "n": n, "maxSeg": max_seg, "chunk": chunk, "spec": spec,
@@ -651,9 +662,18 @@ def run_via(ctx):
 
 
 def run(ctx):
+    import os
     import common
     common.setup_impl_path()
     import grid  # noqa: F401
+    # fixed corpus first (independent of VERIF_SEED): one minimal input per known mechanism --
+    #   multi-piece IUploadable.read vs Data (seeded C05-a), literal uploads without servers (C05-b),
+    #   unflushed / repositioned / descriptor-less file objects vs Data (C05-c)
+    run_via(ctx, corpus=True)
+    run_noservers(ctx, corpus=True)
+    run_sources(ctx, corpus=True)
+    if os.environ.get("VERIF_CORPUS_ONLY"):
+        return
     run_hashutil(ctx)
     run_via(ctx)
     run_sources(ctx)
